@@ -1,17 +1,19 @@
 (* C09 driver body (after `open C09_model` and drvlib.ml).
-   run <fix> <page> <n> <offN,offP,offM,offA> <footN,footP,footM,footA> <conv> <paths> <fids> <fs> <imgs> <ops...>
+   run <fix> <page> <n> <offN,offP,offM,offA> <footN,footP,footM,footA> <conv> <scale> <nointer> <flags> <paths> <fids> <fs> <imgs> <ops...>
      conv : from:to:dt:res;...  (fmt letters N P M A, dt f4|f8) or -
+     scale: fmt:dt:value:scaleid;... or - (scale factors the array writer computes)   nointer: 4 flags N P M A
+     flags: <mixed-sign data><fewer than 3 axes><reshape keeps scale factors>
      paths: N0,N1,P0,M1  (format letter + compressed flag), one per path NAME
      fids : 0,0,1        file identity behind each name (symlink / hard link / other spelling share one)
-     fs   : per FILE "-" (absent) or <v>:<dt>:<aff>, comma separated
+     fs   : per FILE "-" (absent) or <v>:<dt>:<aff>[:<scaleid>], comma separated
      imgs : per slot "-" (empty) or A:<v>:<fmt>:<dt>:<aff> (an array image), comma separated
-     ops  : L<s><p><T|F> F<s> U<s> E<s> D<s> S<s><p> B<s> X<s> (save onto a link to /dev/full)
-   -> ok <out>*   out: done | val:<v|G> | saved:<p>:<v|G>:<dt>:<aff> | bytes:<v|G>:<dt>:<aff>
+     ops  : L<s><p><T|F> F<s> U<s> E<s> D<s> S<s><p> B<s> X<s> (save onto a link to /dev/full) I<s> (int16) W<s><p> (save as uint8)
+   -> ok <out>*   out: done | val:<v|G> | saved:<p>:<v|G>:<dt>:<aff>:<scaleid> | bytes:<v|G>:<dt>:<aff>
                        | ref:<enum> | crash | dead *)
 let split c s = if s = "" || s = "-" then [] else String.split_on_char c s
 let fmt_of = function 'N' -> Nii | 'P' -> Pair | 'M' -> Mgh | 'A' -> Spm | _ -> failwith "fmt"
-let dt_of = function "f4" -> F4 | "f8" -> F8 | s -> failwith ("dtype " ^ s)
-let str_dt = function F4 -> "f4" | F8 -> "f8"
+let dt_of = function "f4" -> F4 | "f8" -> F8 | "i2" -> I2 | "u1" -> U1 | s -> failwith ("dtype " ^ s)
+let str_dt = function F4 -> "f4" | F8 -> "f8" | I2 -> "i2" | U1 -> "u1"
 let digit c = Char.code c - 48
 let str_v = function None -> "G" | Some v -> string_of_int (int_of_nat v)
 let triple s = match split ',' s with [a; b; c; d] -> (z_of_string a, z_of_string b, z_of_string c, z_of_string d) | _ -> failwith "quad"
@@ -21,19 +23,21 @@ let op_of tok =
   | 'L' -> Load (n 1, n 2, tok.[3] = 'T')
   | 'F' -> Fdata (n 1) | 'U' -> Uncache (n 1) | 'E' -> EditHdr (n 1) | 'D' -> SetDtype (n 1)
   | 'S' -> Save (n 1, n 2) | 'B' -> ToBytes (n 1) | 'X' -> SaveFull (n 1)
+  | 'I' -> SetInt (n 1) | 'W' -> SaveU8 (n 1, n 2)
   | _ -> failwith ("op " ^ tok)
 let str_err = function ENoImage -> "noimage" | ENoFile -> "nofile" | EShortRead -> "short_read"
   | ENoConversion -> "no_conversion" | ENotSerializable -> "not_serializable" | ENoSpace -> "nospace"
+  | EWriter -> "writer"
 let str_out = function
   | ODone -> "done"
   | OVal v -> "val:" ^ str_v v
-  | OSaved (p, v, d, a) -> Printf.sprintf "saved:%d:%s:%s:%d" (int_of_nat p) (str_v v) (str_dt d) (int_of_nat a)
+  | OSaved (p, v, d, a, k) -> Printf.sprintf "saved:%d:%s:%s:%d:%d" (int_of_nat p) (str_v v) (str_dt d) (int_of_nat a) (int_of_nat k)
   | OBytes (v, d, a) -> Printf.sprintf "bytes:%s:%s:%d" (str_v v) (str_dt d) (int_of_nat a)
   | ORefused e -> "ref:" ^ str_err e
   | OCrash -> "crash"
   | ODead -> "dead"
 let handle op args = match op, args with
-  | "run", fix :: page :: n :: offs :: foots :: conv :: paths :: fids :: fs :: imgs :: ops ->
+  | "run", fix :: page :: n :: offs :: foots :: conv :: scale :: nointer :: flags :: paths :: fids :: fs :: imgs :: ops ->
     let sel (a, b, c, d) = function Nii -> a | Pair -> b | Mgh -> c | Spm -> d in
     let convt = List.map (fun e -> match split ':' e with
         | [a; b; d; r] -> (((fmt_of a.[0], fmt_of b.[0]), dt_of d), dt_of r)
@@ -42,9 +46,16 @@ let handle op args = match op, args with
               g_paths = List.map (fun s -> { pi_fmt = fmt_of s.[0]; pi_gz = (s.[1] = '1') }) (split ',' paths);
               g_fid = List.map (fun x -> nat_of_int (int_of_string x)) (split ',' fids);
               g_off = sel (triple offs); g_foot = sel (triple foots); g_conv = convt;
-              g_fix = bool_of_string fix } in
+              g_fix = bool_of_string fix;
+              g_scale = List.map (fun e -> match split ':' e with
+                  | [f; d; v; r] -> (((fmt_of f.[0], dt_of d), nat_of_int (int_of_string v)), nat_of_int (int_of_string r))
+                  | _ -> failwith "scale") (split ';' scale);
+              g_nointer = (fun f -> nointer.[match f with Nii -> 0 | Pair -> 1 | Mgh -> 2 | Spm -> 3] = '1');
+              g_mixed = (flags.[0] = '1'); g_lowdim = (flags.[1] = '1'); g_reshape_ok = (flags.[2] = '1') } in
     let fs0 = List.map (fun s -> if s = "-" then None else match String.split_on_char ':' s with
-        | [v; d; a] -> Some { k_val = Some (nat_of_int (int_of_string v)); k_dt = dt_of d; k_aff = nat_of_int (int_of_string a) }
+        | [v; d; a] -> Some { k_val = Some (nat_of_int (int_of_string v)); k_dt = dt_of d; k_aff = nat_of_int (int_of_string a); k_scl = O }
+        | [v; d; a; k] -> Some { k_val = Some (nat_of_int (int_of_string v)); k_dt = dt_of d; k_aff = nat_of_int (int_of_string a);
+                                 k_scl = nat_of_int (int_of_string k) }
         | _ -> failwith "fs") (String.split_on_char ',' fs) in
     let im0 = List.map (fun s -> if s = "-" then None else match String.split_on_char ':' s with
         | ["A"; v; f; d; a] -> Some { i_src = SArray (Some (nat_of_int (int_of_string v))); i_fmt = fmt_of f.[0];
